@@ -8,8 +8,8 @@ pull-back warp. For every destination voxel v:
   4. to_voxel(cs_src) Coordinate: floor((x − origin)·(±1)/h) | Voxel: as is | VoxelCenter: rnd
   5. valid iff 0 ≤ voxel < cs_src.shape; invalid destination voxels stay 0.
 `rnd` is the rounding of the point constructors `Voxel.__new__` / `VoxelCenter.__new__` in utils/point.py
-(`astype(int)` = truncation toward zero on the tree this was written for; `floor` after the point fix). It is a
-parameter here and tabulated from the running code (DarsiaGen.PointRounding).
+(`floor` since the point fix; `astype(int)` = truncation toward zero before it). It is a parameter here and
+tabulated from the running code on every check (DarsiaGen.PointRounding; currently `.floor`).
 
 Coordinate systems: matrix indexing "ij" / "ijk"; `interpret_indexing` gives
   2-D: x ↦ (matrix axis 1, not reverted), y ↦ (0, reverted)
